@@ -82,6 +82,23 @@ def rand_elems(rng, dt, n):
     return bytes(out)
 
 
+def slab_spec(rng, dims, lo, partial_ok=True, p=0.6):
+    """a second way to produce the same array: written in 2..5 slabs along one axis, in random order, through the
+    general (memory sub-range) or the partial (contiguous slab, last axis) writers.  None = one whole-array call"""
+    axes = [a for a, d in enumerate(dims) if d >= 2]
+    if not axes or rng.random() > p:
+        return None
+    axis = rng.choice(axes + [len(dims) - 1] * 2) if dims[-1] >= 2 else rng.choice(axes)
+    n = dims[axis]
+    k = rng.randint(1, min(4, n - 1))
+    cuts = sorted(rng.sample(range(1, n), k))
+    order = list(range(k + 1))
+    if rng.random() < 0.6:
+        rng.shuffle(order)
+    mode = "p" if partial_ok and axis == len(dims) - 1 and rng.random() < 0.5 else "g"
+    return "%d:%s:%s:%s:%s" % (axis, ",".join(map(str, cuts)), ",".join(map(str, order)), ",".join(map(str, lo)), mode)
+
+
 def prod(l):
     p = 1
     for x in l:
@@ -223,10 +240,13 @@ class Gen:
         self.calls = []            # (line, expected "i ..." answer, plan)
         self.kinds = set()
         self.avoid_complex = True
+        self.nslab = 0
 
     # -- emission
-    def call(self, fn, at, name=b"", ints=(), strs=(), arrs=(), ret=None, plan=None):
-        line = "call %s %s %s %s %s" % (fn, at.spath() if at is not None else "-", hx(name),
+    def call(self, fn, at, name=b"", ints=(), strs=(), arrs=(), ret=None, plan=None, slab=None):
+        if slab:
+            self.nslab += 1
+        line = "%s %s %s %s %s %s" % ("callp " + slab if slab else "call", fn, at.spath() if at is not None else "-", hx(name),
                                         ",".join(str(i) for i in ints) if ints else "-",
                                         ";".join(hx(s) for s in strs) if strs else "-")
         for dt, dims, data in arrs:
@@ -367,7 +387,9 @@ def e_coord(g, par, p):
     name = p.kw["name"]
     if any(k.name == name for k in gc.kids):
         return None
-    ci = g.call("coord", par, name, arrs=[(dt, dims, data)], plan=p)
+    rind = rind_of(gc)
+    ci = g.call("coord", par, name, arrs=[(dt, dims, data)], plan=p,
+                slab=slab_spec(g.rng, dims, [1 - rind[2 * j] for j in range(len(dims))]))
     n = Node("DataArray_t", name, p_arr(dt, dims, data), gc)
     g.expect_index(ci, n)
     return n
@@ -414,7 +436,8 @@ def e_section(g, par, p):
     arrs = [("I8", [len(conn)], cb)]
     if off is not None:
         arrs.append(("I8", [n + 1], struct.pack("<%dq" % (n + 1), *off)))
-    ci = g.call("section" if off is None else "poly_section", par, kw["name"], [et, start, end, nb], arrs=arrs, plan=p)
+    ci = g.call("section" if off is None else "poly_section", par, kw["name"], [et, start, end, nb], arrs=arrs, plan=p,
+                slab=slab_spec(rng, [n], [1]) if off is None else None)
     s = Node("Elements_t", kw["name"], p_ints([2], [et, nb]), par)
     s.nelem = n
     Node("IndexRange_t.ElementRange", b"ElementRange", p_ints([2], [start, end]), s)
@@ -453,7 +476,9 @@ def e_field(g, par, p):
         return None
     dt = p.kw["dt"]
     data = rand_elems(g.rng, dt, prod(dims))
-    ci = g.call("field", par, p.kw["name"], arrs=[(dt, dims, data)], plan=p)
+    rind = rind_of(par)
+    ci = g.call("field", par, p.kw["name"], arrs=[(dt, dims, data)], plan=p,
+                slab=slab_spec(g.rng, dims, [1 - rind[2 * j] for j in range(len(dims))]))
     n = Node("DataArray_t", p.kw["name"], p_arr(dt, dims, data), par)
     g.expect_index(ci, n)
     return n
@@ -1025,11 +1050,13 @@ class Planner:
         zprefix = bytes(rng.choice(NAME_CHARS) for _ in range(rng.choice([0, 0, 4, 9, 17, 26])))
         for _ in range(rng.randint(1, 4 if self.big else 3)):
             zt = rng.choice([2, 3])
+            large = rng.random() < 0.35            # arrays of a large zone span several 4096-byte blocks of the file
             if zt == 2:
-                nv = [rng.randint(2, 4) for _ in range(cell)]
+                hi = {1: 900, 2: 30, 3: 10}[cell] if large else 4
+                nv = [rng.randint(2, hi) for _ in range(cell)]
                 sizes = nv + [x - 1 for x in nv] + [0] * cell
             else:
-                nvt = rng.randint(4, 16)
+                nvt = rng.randint(300, 900) if large else rng.randint(4, 16)
                 sizes = [nvt, rng.randint(1, 9), rng.randint(0, nvt)]
             zones.append((zprefix + self.nm("Z")[:32 - len(zprefix)], zt, sizes))
         for zn, zt, sizes in zones:
@@ -1171,7 +1198,7 @@ class Planner:
             prev = None
             for _ in range(rng.choice([0, 1, 2, 3])):
                 et = rng.choice([5, 7, 10, 17, 3, 2, 20, 22, 23, 12, 14])
-                s = Plan("section", e_section, name=self.nm("Sec"), et=et, n=rng.randint(1, 6))
+                s = Plan("section", e_section, name=self.nm("Sec"), et=et, n=rng.choice([rng.randint(1, 6), rng.randint(1, 6), rng.randint(100, 400)]))
                 if rng.random() < 0.4:
                     s.kids.append(Plan("parent_data", e_parent_data))
                 s.kids += self.ctx_plans("Elements_t")
@@ -1597,6 +1624,7 @@ def run(ck):
     configs_all = list(CONFIGS)
     dist = {"files": 0, "calls": 0, "entities": 0, "functions": set(), "kinds": set(), "configs": {}}
     fails_seen, divs_seen = {}, []
+    nslab = [0]
 
     def one(j, label, configs):
         import random
@@ -1605,6 +1633,7 @@ def run(ck):
         ml = vlib.run_model("c01", model_script(g)) if engine_ok else None
         exp = expected_lines(g.root)
         dist["calls"] += len(g.calls)
+        nslab[0] += g.nslab
         dist["entities"] += len(exp)
         dist["functions"] |= g.kinds
         for l in exp:
@@ -1667,6 +1696,7 @@ def run(ck):
     dist["kinds_count"] = len(dist["kinds"])
     ck.extra["input_distribution"] = dist
     ck.extra["covered_entity_kinds"] = dist["kinds"]
+    dist["arrays_written_in_slabs"] = nslab[0]
     ck.extra["model_vs_impl_divergences"] = len(divs_seen)
 
 
